@@ -161,10 +161,12 @@ fn run_arc(sc: &Value) -> Value {
     let x = num(&sc["x"]);
     let y = num(&sc["y"]);
     let r = num(&sc["r"]);
-    // angles are given as rational multiples of pi: [n, d] -> n * pi / d
-    let ang = |v: &Value| (num(&v[0]) as f64 * std::f64::consts::PI / num(&v[1]) as f64) as f32;
-    let start = ang(&sc["start"]);
-    let sweep = ang(&sc["sweep"]);
+    // angles are given as directions (a + b i) / n plus a number of quarter turns, so that the
+    // specification knows their cosines and sines exactly; the harness turns them into f32 radians
+    let ang = |v: &Value| (num(&v[1]) as f64).atan2(num(&v[0]) as f64);
+    let start = ang(&sc["start_dir"]) as f32;
+    let sign = if int(&sc["sign"]) >= 0 { 1.0 } else { -1.0 };
+    let sweep = (sign * (int(&sc["quarters"]) as f64 * std::f64::consts::FRAC_PI_2 + ang(&sc["sweep_dir"]))) as f32;
     let res = std::panic::catch_unwind(|| {
         let mut pb = PathBuilder::new();
         if sc["pre_move"].as_bool().unwrap_or(true) {
@@ -216,7 +218,7 @@ fn run_arc(sc: &Value) -> Value {
     }
     let fl = first_line.map(|q| json!([((q.x as f64 - x as f64) * 1024.0).round() as i64, ((q.y as f64 - y as f64) * 1024.0).round() as i64])).unwrap_or(json!([]));
     json!({"id": sc["id"], "fam": "arc", "outcome": "ok", "r1024": (r as f64 * 1024.0).round() as i64,
-           "start": sc["start"], "sweep": sc["sweep"], "pre_move": sc["pre_move"].as_bool().unwrap_or(true),
+           "start_dir": sc["start_dir"], "sweep_dir": sc["sweep_dir"], "quarters": sc["quarters"], "sign": sc["sign"], "pre_move": sc["pre_move"].as_bool().unwrap_or(true),
            "kinds": kinds, "first_line": fl, "samples": samples})
 }
 
